@@ -475,6 +475,78 @@ def late_failure_retarget(rec):
                                                         f"process refuses this design", case=case, source="late-failure-retarget", where=variant)
 
 
+def odd_failure_repeats(rec):
+    """Ill-formed designs whose error arises in odd places of the traversal (a bundle instance, instance or instance bundle whose
+    target is not what its kind requires - given at construction where that is accepted, else by attribute afterwards): the failed
+    call repeated, and a new parent of the module, report the ORIGINAL error - not a different one a half-updated cache suggests."""
+    import hdl21 as h
+
+    E = h.ExternalModule(name="OddE", port_list=[h.Port(name="z")], paramtype=h.HasNoParams)
+
+    def mk(kind, uid):
+        m = h.Module(name=f"Odd{uid}")
+        m.s = h.Signal()
+        m.e = E()(z=m.s)
+        if kind.startswith("bundle-of-"):
+            what = {"bundle-of-instance": lambda: h.Diff(), "bundle-of-module": lambda: h.Module(name=f"OddInner{uid}"), "bundle-of-int": lambda: 5}[kind]()
+            try:
+                m.d = h.BundleInstance(of=what)
+            except Exception:
+                bi = h.Diff()
+                bi.of = what  # (refused at construction: the attribute remains)
+                m.d = bi
+            m.r = h.R(r=1)(p=m.s, n=m.s)
+        elif kind == "instance-of-int":
+            i = E()(z=m.s)
+            i.of = 5
+            m.add(i, name="bad")
+        elif kind == "pair-of-bundle-instance":
+            pr = h.Pair(E())(z=h.AnonymousBundle(p=m.s, n=m.s))
+            pr.bundle = h.Diff()
+            m.add(pr, name="pr")
+        elif kind == "array-n-string":
+            a = h.InstanceArray(E(), 2)(z=m.s)
+            a.n = "2"
+            m.add(a, name="arr")
+        return m
+
+    for kind in ("bundle-of-instance", "bundle-of-module", "bundle-of-int", "instance-of-int", "pair-of-bundle-instance", "array-n-string"):
+        for call in ("elaborate", "to_proto"):
+            uid = next(_uid)
+            rec.count("odd-failure.scenarios")
+            case = {"kind": "scenario", "source": "odd-failure", "where": kind, "call": call}
+            rec.case(key=jhash(case), nontrivial=True, sample=case)
+            try:
+                m = mk(kind, uid)
+            except Exception:
+                rec.count("odd-failure.refused-at-construction")
+                continue
+            f = h.elaborate if call == "elaborate" else h.to_proto
+            try:
+                f(m)
+                rec.count("scenario.first-call-did-not-fail")
+                continue
+            except Exception as e:
+                first = sig_of(e)
+            for attempt in ("same-call", "other-call", "new-parent"):
+                try:
+                    if attempt == "same-call":
+                        f(m)
+                    elif attempt == "other-call":
+                        (h.to_proto if call == "elaborate" else h.elaborate)(m)
+                    else:
+                        par = h.Module(name=f"OddPar{uid}")
+                        par.add(h.Instance(of=m)(), name="u")
+                        h.to_proto(par)
+                    rec.violation("failed-call-repeat-succeeds", f"after a failed {call} ({first[:80]}) [odd-failure / {kind}]: {attempt} returned", case=case,
+                                  source="odd-failure", where=kind)
+                except Exception as e2:
+                    rec.count("odd-failure.repeats-checked")
+                    if sig_of(e2) != first:
+                        rec.violation("retry-error-differs", f"after a failed {call} [odd-failure / {kind}] with `{first[:90]}`, {attempt} reports another error: "
+                                                             f"`{sig_of(e2)[:110]}`", case=case, source="odd-failure", where=kind)
+
+
 class _Opaque:
     """A hashable value that no JSON encoder knows: generator parameters holding it cannot be named."""
 
@@ -674,6 +746,7 @@ def run(ctx, rec):
         work = work[ctx.shard:: ctx.nshards]
     if ctx.shard == 0:
         late_failure_retarget(rec)
+        odd_failure_repeats(rec)
     for w in work:
         if w[0] == "bomb":
             bomb_scenario(rec, w[1], w[2], w[3], w[4])
